@@ -36,7 +36,7 @@ MANIFEST = {
 LEVEL = 'fault_enumeration'
 MAX_FILE = 1 << 20
 
-RULE = ('cases = Hypothesis-generated op sequences over add(size classes 0,1,small,remaining-space+-8,0.5x-5x file size)/'
+RULE = ('cases = Hypothesis-generated op sequences over runs of 2-12 small appends/add(size classes 0,1,small,remaining-space+-8,0.5x-5x file size)/'
         'deleteEntriesFrom/deleteEntriesTo/clear/setRaftCommitIndex/onOneSecondTimer/reopen, compared with a list after every op; '
         'flagged ops are additionally killed (real fork+_exit) after every primitive write and mid-record. '
         'non-trivial = sequence contains an add that grew the file AND a head/tail drop that is later followed by a reopen; '
